@@ -1214,3 +1214,215 @@ Proof.
   - exfalso. eapply H; reflexivity.
   - exfalso. eapply H; reflexivity.
 Qed.
+
+(* ====================== K. the executable oracle's atoms are the declarative notions ====================== *)
+Lemma existsb_Forall_iff {A} (f : A -> bool) (Q : A -> Prop) l :
+  Forall (fun a => f a = true <-> Q a) l -> (existsb f l = true <-> exists a, In a l /\ Q a).
+Proof.
+  intros HF. rewrite Forall_forall in HF. rewrite existsb_exists. split.
+  - intros (a & Ha & H). exists a. split; [exact Ha | apply (HF a Ha); exact H].
+  - intros (a & Ha & H). exists a. split; [exact Ha | apply (HF a Ha); exact H].
+Qed.
+
+Theorem refersb_Refers D n t : refersb D n t = true <-> Refers D t n.
+Proof.
+  induction t as [m|q p|a IH|l IH|l IH] using ptree_ind'; simpl.
+  - rewrite str_eqb_eq. split; [intros ->; constructor | intros H; inversion H; reflexivity].
+  - rewrite andb_true_iff, mem_str_In, selectedb_Selected. split.
+    + intros [H1 H2]. constructor; assumption.
+    + intros H. inversion H; subst. auto.
+  - rewrite IH. split; [intros H; constructor; exact H | intros H; inversion H; assumption].
+  - rewrite (existsb_Forall_iff _ (fun a => Refers D a n) l IH). split.
+    + intros (a & Ha & H). econstructor; eassumption.
+    + intros H. inversion H; subst. eauto.
+  - rewrite (existsb_Forall_iff _ (fun a => Refers D a n) l IH). split.
+    + intros (a & Ha & H). eapply rf_or; eassumption.
+    + intros H. inversion H; subst. eauto.
+Qed.
+
+Theorem sel_pats_HasSel t p : In p (sel_pats t) <-> HasSel t p.
+Proof.
+  revert p. induction t as [m|q p0|a IH|l IH|l IH] using ptree_ind'; intros p; simpl.
+  - split; [intros [] | intros H; inversion H].
+  - split; [intros [->|[]]; constructor | intros H; inversion H; left; reflexivity].
+  - rewrite IH. split; [intros H; constructor; exact H | intros H; inversion H; assumption].
+  - rewrite (in_flat_map_Forall _ (fun a y => HasSel a y) l p IH). split.
+    + intros (a & Ha & H). econstructor; eassumption.
+    + intros H. inversion H; subst. eauto.
+  - rewrite (in_flat_map_Forall _ (fun a y => HasSel a y) l p IH). split.
+    + intros (a & Ha & H). eapply hs_or; eassumption.
+    + intros H. inversion H; subst. eauto.
+Qed.
+
+Theorem unmatchedb_Unmatched D p : unmatchedb D p = true <-> Unmatched D p.
+Proof.
+  unfold unmatchedb, Unmatched. rewrite negb_true_iff. split.
+  - intros H n Hn Hs. apply selectedb_Selected in Hs.
+    assert (X : existsb (selectedb p) D = true) by (apply existsb_exists; exists n; auto). congruence.
+  - intros H. destruct (existsb (selectedb p) D) eqn:E; [|reflexivity]. exfalso.
+    apply existsb_exists in E. destruct E as (n & Hn & Hs). apply selectedb_Selected in Hs. exact (H n Hn Hs).
+Qed.
+
+(* ====================== L. nothing is reported twice ====================== *)
+Lemma NoDup_app_intro {A} (a b : list A) :
+  NoDup a -> NoDup b -> (forall x, In x a -> In x b -> False) -> NoDup (a ++ b).
+Proof.
+  intros Ha Hb Hd. induction Ha as [|x a0 Hx Ha IH]; simpl; [exact Hb|].
+  constructor.
+  - rewrite in_app_iff. intros [H|H]; [exact (Hx H) | exact (Hd x (or_introl eq_refl) H)].
+  - apply IH. intros y Hy. apply Hd. right. exact Hy.
+Qed.
+
+Lemma NoDup_flat_map_intro {A B} (f : A -> list B) l :
+  NoDup l -> (forall a, In a l -> NoDup (f a)) ->
+  (forall a b x, In a l -> In b l -> In x (f a) -> In x (f b) -> a = b) ->
+  NoDup (flat_map f l).
+Proof.
+  intros Hl. induction Hl as [|a0 l Ha Hl IH]; intros Hf Hd; simpl; [constructor|].
+  apply NoDup_app_intro.
+  - apply Hf. left. reflexivity.
+  - apply IH; [intros b Hb; apply Hf; right; exact Hb|].
+    intros b c x Hb Hc. apply Hd; right; assumption.
+  - intros x Hx Hx'. apply in_flat_map in Hx'. destruct Hx' as (b & Hb & Hxb).
+    assert (a0 = b) by (apply (Hd a0 b x); auto; [left; reflexivity | right; exact Hb]).
+    subst b. exact (Ha Hb).
+Qed.
+
+Definition ikey (i : issue) : option N :=
+  match i with IUnused k _ | IDangling k _ | INoId k => Some k | _ => None end.
+
+Lemma v_check_NoDup v r l : v_check v r = Ok l -> NoDup l.
+Proof.
+  destruct v; simpl.
+  - destruct (r_corr r); [intros H; inversion H; constructor|].
+    destruct (parse_all (r_conds r)); simpl; try discriminate. intros H. inversion H; subst.
+    apply FinFun.Injective_map_NoDup; [intros u w X; inversion X; reflexivity|].
+    apply NoDup_filter. apply dedup_NoDup.
+  - destruct (r_corr r); [intros H; inversion H; constructor|].
+    destruct (parse_all (r_conds r)); simpl; try discriminate. intros H. inversion H; subst.
+    apply FinFun.Injective_map_NoDup; [intros u w X; inversion X; reflexivity|]. apply dedup_NoDup.
+  - destruct (r_id r); intros H; inversion H; repeat constructor. intros [].
+  - intros H; inversion H; constructor.
+  - intros H; inversion H; constructor.
+  - intros H; inversion H; constructor.
+Qed.
+
+Lemma okl_ikey v r i : In i (okl (v_check v r)) -> ikey i = Some (r_key r).
+Proof.
+  destruct v; simpl.
+  - destruct (r_corr r); simpl; [intros []|]. destruct (parse_all (r_conds r)); simpl; try (intros []).
+    intros H. apply in_map_iff in H. destruct H as (x & <- & _). reflexivity.
+  - destruct (r_corr r); simpl; [intros []|]. destruct (parse_all (r_conds r)); simpl; try (intros []).
+    intros H. apply in_map_iff in H. destruct H as (x & <- & _). reflexivity.
+  - destruct (r_id r); simpl; [intros []|]. intros [<-|[]]. reflexivity.
+  - intros [].
+  - intros [].
+  - intros [].
+Qed.
+
+Lemma v_finalize_ikey v s i : In i (v_finalize v s) -> ikey i = None.
+Proof.
+  destruct v; simpl; try (intros []); intros H; apply in_flat_map in H; destruct H as (x & _ & H);
+    destruct (_ <? _)%nat; simpl in H; try contradiction; destruct H as [<-|[]]; reflexivity.
+Qed.
+
+Lemma rule_part_NoDup E vs r : NoDup vs -> NoDup (rule_part E vs r).
+Proof.
+  intros Hn. unfold rule_part. apply NoDup_flat_map_intro; [exact Hn| |].
+  - intros v _. destruct (excluded E r v); [constructor|].
+    destruct (v_check v r) eqn:Ec; simpl; try constructor. eapply v_check_NoDup. exact Ec.
+  - intros a b x _ _ Ha Hb.
+    assert (Ka : kind_of x = a).
+    { destruct (excluded E r a); [contradiction|]. pose proof (okl_kind a r) as K. rewrite Forall_forall in K. exact (K x Ha). }
+    assert (Kb : kind_of x = b).
+    { destruct (excluded E r b); [contradiction|]. pose proof (okl_kind b r) as K. rewrite Forall_forall in K. exact (K x Hb). }
+    congruence.
+Qed.
+
+Lemma rule_part_ikey E vs r i : In i (rule_part E vs r) -> ikey i = Some (r_key r).
+Proof.
+  unfold rule_part. intros H. apply in_flat_map in H. destruct H as (v & _ & H).
+  destruct (excluded E r v); [contradiction|]. eapply okl_ikey. exact H.
+Qed.
+
+Lemma keyed_finalize_NoDup {K} (mk : K -> str -> issue) (g : str -> K) (c : str -> bool) keys :
+  (forall a b x y, mk a x = mk b y -> x = y) -> NoDup keys ->
+  NoDup (flat_map (fun x => if c x then [mk (g x) x] else []) keys).
+Proof.
+  intros Hinj Hn. apply NoDup_flat_map_intro; [exact Hn| |].
+  - intros x _. destruct (c x); repeat constructor. intros [].
+  - intros a b i _ _ Ha Hb. destruct (c a); [|contradiction]. destruct (c b); [|contradiction].
+    destruct Ha as [<-|[]], Hb as [Hb|[]]. symmetry. eapply Hinj. exact Hb.
+Qed.
+
+Lemma v_finalize_NoDup E v rules : NoDup (v_finalize v (facc E v rules s_init)).
+Proof.
+  destruct v; try constructor.
+  - simpl. rewrite facc_tbl by reflexivity. simpl.
+    rewrite (tbl_flat_map_keys (fun x rs => if (1 <? length rs)%nat then [IIdColl rs x] else []) _)
+      by (apply tbl_fold_NoDup; constructor).
+    apply (keyed_finalize_NoDup IIdColl (fun x => tbl_get x _) (fun x => (1 <? length (tbl_get x _))%nat)).
+    + intros a b x y X. inversion X. reflexivity.
+    + apply tbl_fold_NoDup. constructor.
+  - simpl. rewrite facc_tbl by reflexivity. simpl.
+    rewrite (tbl_flat_map_keys (fun x rs => if (1 <? length rs)%nat then [ITitle rs x] else []) _)
+      by (apply tbl_fold_NoDup; constructor).
+    apply (keyed_finalize_NoDup ITitle (fun x => tbl_get x _) (fun x => (1 <? length (tbl_get x _))%nat)).
+    + intros a b x y X. inversion X. reflexivity.
+    + apply tbl_fold_NoDup. constructor.
+  - simpl. rewrite facc_paths. simpl.
+    set (T := s_tbl (facc E VFile rules s_init)).
+    rewrite (ptbl_flat_map_keys (fun x ps => if (1 <? length ps)%nat then [IFile (tbl_get x T) x] else []) _)
+      by (apply ptbl_fold_NoDup; constructor).
+    apply (keyed_finalize_NoDup IFile (fun x => tbl_get x T) (fun x => (1 <? length (ptbl_get x _))%nat)).
+    + intros a b x y X. inversion X. reflexivity.
+    + apply ptbl_fold_NoDup. constructor.
+Qed.
+
+Lemma NoDup_map_inj_on {A B} (f : A -> B) l a b :
+  NoDup (map f l) -> In a l -> In b l -> f a = f b -> a = b.
+Proof.
+  induction l as [|x l IH]; simpl; intros Hn Ha Hb E; [contradiction|].
+  inversion Hn as [|? ? Hx Hn']; subst. destruct Ha as [->|Ha], Hb as [->|Hb]; auto.
+  - exfalso. apply Hx. rewrite E. apply in_map. exact Hb.
+  - exfalso. apply Hx. rewrite <- E. apply in_map. exact Ha.
+Qed.
+
+(* with distinct validator classes and distinct rule objects no issue is reported twice *)
+Theorem validate_NoDup E vs rules l :
+  validate E vs rules = Ok l -> NoDup vs -> NoDup (map r_key rules) -> NoDup l.
+Proof.
+  intros H Hv Hk. apply validate_ok in H. destruct H as [_ ->]. unfold pure_validate.
+  apply NoDup_app_intro.
+  - apply NoDup_flat_map_intro.
+    + eapply NoDup_map_inv. exact Hk.
+    + intros r _. apply rule_part_NoDup. exact Hv.
+    + intros a b x Ha Hb Hxa Hxb. apply rule_part_ikey in Hxa, Hxb.
+      apply (NoDup_map_inj_on r_key rules a b Hk Ha Hb). congruence.
+  - unfold final_part. apply NoDup_flat_map_intro; [exact Hv| |].
+    + intros v _. apply v_finalize_NoDup.
+    + intros a b x _ _ Ha Hb.
+      pose proof (v_finalize_kind a (facc E a rules s_init)) as K1. rewrite Forall_forall in K1.
+      pose proof (v_finalize_kind b (facc E b rules s_init)) as K2. rewrite Forall_forall in K2.
+      rewrite <- (K1 x Ha), <- (K2 x Hb). reflexivity.
+  - intros x H1 H2. apply in_flat_map in H1. destruct H1 as (r & _ & H1). apply rule_part_ikey in H1.
+    unfold final_part in H2. apply in_flat_map in H2. destruct H2 as (v & _ & H2). apply v_finalize_ikey in H2.
+    congruence.
+Qed.
+
+Theorem reference_issues_once r ts :
+  r_corr r = false -> parse_all (r_conds r) = Ok ts ->
+  (forall l, v_check VUnused r = Ok l -> NoDup l) /\ (forall l, v_check VDangling r = Ok l -> NoDup l).
+Proof.
+  intros Hc Hp. split; intros l H; [exact (unused_once r ts l Hc Hp H) | exact (dangling_once r ts l Hc Hp H)].
+Qed.
+
+Theorem oracle_atoms :
+  (forall p n, selectedb p n = true <-> Selected p n) /\
+  (forall D n t, refersb D n t = true <-> Refers D t n) /\
+  (forall t p, In p (sel_pats t) <-> HasSel t p) /\
+  (forall D p, unmatchedb D p = true <-> Unmatched D p).
+Proof.
+  split; [exact selectedb_Selected|]. split; [exact refersb_Refers|].
+  split; [exact sel_pats_HasSel | exact unmatchedb_Unmatched].
+Qed.
